@@ -411,6 +411,43 @@ func askForSomeValues(rng *rand.Rand, q *spsim.AttrQuery, u *sim.User) bool {
 	return false
 }
 
+// refConsumerChoice is the documented selection rule on a registered consumer-service list: the positions that may be
+// chosen for a requested binding (first entry with that binding; else first entry flagged default; else any entry of
+// minimal index; -1 = nothing, for an empty list).
+func refConsumerChoice(acs []spsim.ACS, requested string) []int {
+	if len(acs) == 0 {
+		return []int{-1}
+	}
+	for i, a := range acs {
+		if requested != "" && a.Binding == requested {
+			return []int{i}
+		}
+	}
+	for i, a := range acs {
+		if a.IsDefault == "true" || a.IsDefault == "1" {
+			return []int{i}
+		}
+	}
+	val := func(a spsim.ACS) int {
+		n := 0
+		fmt.Sscanf(a.Index, "%d", &n)
+		return n
+	}
+	min := 1 << 30
+	for _, a := range acs {
+		if v := val(a); v < min {
+			min = v
+		}
+	}
+	var out []int
+	for i, a := range acs {
+		if val(a) == min {
+			out = append(out, i)
+		}
+	}
+	return out
+}
+
 // setDiffList compares two sorted key lists as multisets.
 func setDiffList(want, got []string) string {
 	if equalStrings(want, got) {
